@@ -51,8 +51,8 @@ func c20GoTypes() []c20GoType {
 
 var (
 	c20APITags  = []string{"attr", "rel", "rel,roles", "other", "", "rel,emails,inv", "rel,", "rel,a,b,c", "attr,x", "rel,roles,"}
-	c20JSONTags = []string{"a", "b", "", "id"}
-	c20IDs      = []string{"string+tags", "absent", "no-api-tag", "json-not-id", "no-json-tag", "int+tags", "string+tags+dash"}
+	c20JSONTags = []string{"a", "b", "", "id", "ID"}
+	c20IDs      = []string{"string+tags", "absent", "no-api-tag", "json-not-id", "no-json-tag", "int+tags", "string+tags+dash", "string+tags+declared-last"}
 )
 
 type c20Field struct {
@@ -90,6 +90,10 @@ func c20Struct(idKind int, fields []c20Field) (t reflect.Type, key string) {
 		}
 		sf = append(sf, reflect.StructField{Name: fmt.Sprintf("F%d", i), Type: f.goType.t, Tag: reflect.StructTag(strings.Join(parts, " "))})
 		key += fmt.Sprintf("|%s %s", f.goType.name, strings.Join(parts, " "))
+	}
+	if idKind == 7 {
+		// the ID field declared after every other field
+		sf = append(sf, reflect.StructField{Name: "ID", Type: reflect.TypeOf(""), Tag: `json:"id" api:"things"`})
 	}
 	if t, ok := c20Cache[key]; ok {
 		return t, key
@@ -369,7 +373,7 @@ func c20Three(x *mc.Exec) {
 func init() {
 	Register(&Prop{
 		ID: "C20",
-		Rule: "Engine A, all choices Full: ALL struct shapes built at run time with reflect.StructOf: 7 ID-field forms (string with tags, absent, no api tag, json tag != id, no json tag, int, json:\"id,omitempty\") x 0..2 further fields, each (Go type x api tag x json tag) from 19 Go types (supported, unsupported, pointers, slices, map, struct, named types with a supported underlying kind) x 10 api tags (attr, rel, 'rel,roles', 'rel,emails,inv', none, 'rel,', 'rel,a,b,c', other, 'attr,x', 'rel,roles,') x 4 json tags (a, b, empty, id): every single field (600), all pairs over the 7x5x3 interesting sub-alphabet in quick and over the full alphabet in thorough (360000 x 7), plus all triples over a 4x4x3 sub-alphabet in thorough; each by value and by pointer. plus every accepted shape of 1..2 fields over a 4x4x2 sub-alphabet judged again after 6 kinds of edits made through the Type value and the maps obtained from an earlier wrapper of the same struct type. Oracle: an independent tag reader predicts the type; if Check accepts: BuildType/Wrap/New/Copy/Type.New/Set+Get of id and of every declared field with a value of its Go type/MarshalResource succeed and built type = predicted type = what the wrapper reports; if Check rejects: BuildType errors and Wrap panics. Non-trivial = accepted shape",
+		Rule: "Engine A, all choices Full: ALL struct shapes built at run time with reflect.StructOf: 8 ID-field forms (string with tags, absent, no api tag, json tag != id, no json tag, int, json:\"id,omitempty\", declared after the other fields) x 0..2 further fields, each (Go type x api tag x json tag) from 19 Go types (supported, unsupported, pointers, slices, map, struct, named types with a supported underlying kind) x 10 api tags (attr, rel, 'rel,roles', 'rel,emails,inv', none, 'rel,', 'rel,a,b,c', other, 'attr,x', 'rel,roles,') x 5 json tags (a, b, empty, id, ID): every single field (600), all pairs over the 7x5x3 interesting sub-alphabet in quick and over the full alphabet in thorough (360000 x 7), plus all triples over a 4x4x3 sub-alphabet in thorough; each by value and by pointer. plus every accepted shape of 1..2 fields over a 4x4x2 sub-alphabet judged again after 6 kinds of edits made through the Type value and the maps obtained from an earlier wrapper of the same struct type. Oracle: an independent tag reader predicts the type; if Check accepts: BuildType/Wrap/New/Copy/Type.New/Set+Get of id and of every declared field with a value of its Go type/MarshalResource succeed and built type = predicted type = what the wrapper reports; if Check rejects: BuildType errors and Wrap panics. Non-trivial = accepted shape",
 		Harnesses: []Harness{
 			{Name: "C20/shapes", Body: c20Shapes},
 			{Name: "C20/after-type-edits", Body: c20AfterEdits},
